@@ -182,6 +182,39 @@ pub async fn run(out: &mut Out) {
             json!({"probed": variants.iter().collect::<Vec<_>>()}),
         );
     }
+    // other node-global state that is not the keyspace: written through one command, read through
+    // another; 1 vs N shards must agree (CONFIG lives in shard 0's executor and both commands are
+    // key-less; client names are stubs; INFO counts keys over all shards)
+    {
+        let mut globals: BTreeMap<String, String> = BTreeMap::new();
+        for (name, seq) in [
+            ("CONFIG SET/GET", vec![Command::ConfigSet("maxmemory".into(), "12345".into()), Command::ConfigGet("maxmemory".into())]),
+            ("CLIENT SETNAME/GETNAME", vec![Command::ClientSetName("probe".into()), Command::ClientGetName]),
+            ("SCRIPT LOAD/EXISTS/FLUSH/EXISTS", vec![
+                Command::ScriptLoad("return 1".into()),
+                Command::ScriptExists(vec!["e0e1f9fabfc9d4800c877a703b823ac0578ff8db".into()]),
+                Command::ScriptFlush,
+                Command::ScriptExists(vec!["e0e1f9fabfc9d4800c877a703b823ac0578ff8db".into()]),
+            ]),
+            ("DBSIZE after writes on several shards", vec![Command::MSet((0..8).map(|i| (format!("g{}", i), sd("v"))).collect()), Command::DbSize, Command::FlushAll, Command::DbSize]),
+        ] {
+            let mut a = Vec::new();
+            let mut b = Vec::new();
+            for c in &seq {
+                a.push(format!("{:?}", st1.execute(c).await));
+                b.push(format!("{:?}", stn.execute(c).await));
+            }
+            globals.insert(name.to_string(), if a == b { "equal on 1 and 4 shards".into() } else { format!("DIFFERS: one shard {:?}, 4 shards {:?}", a, b) });
+            if a != b {
+                out.violation(
+                    &format!("C03:global-state:{}", name.replace(' ', "_")),
+                    &format!("{}: 4 shards answer {:?} where one shard answers {:?}", name, b, a),
+                    json!({"shards": n, "ops": seq.iter().map(|c| format!("{:?}", c)).collect::<Vec<_>>(), "one_shard": a, "n_shards": b}),
+                );
+            }
+        }
+        out.extra.insert("node_global_state_probes".into(), json!(globals));
+    }
     out.extra.insert("route_probe_coverage(variant → keys probed, 1 vs 4 shards after a fast-path write)".into(), json!(cov));
     out.extra.insert("route_probe_keys".into(), json!(keys));
 }
